@@ -1,13 +1,15 @@
 """C12 — Poloidal advection traces 2nd-order ExB characteristics, interpolates at the foot.     LEVEL: other
 
 proof side     : Props/C12.lean (pol_heun_formula, pol_boundary_rule, pol_impl_feet_in_domain,
-                 pol_constant_potential_identity, pol_rigid_rotation, pol_impl_fixed_point_stops) over Model/PolAdv.lean.
+                 pol_constant_potential_identity, pol_rigid_rotation, pol_impl_fixed_point_stops,
+                 pol_impl_terminates_partial) over Model/PolAdv.lean.
 correspondence : real `PoloidalAdvection.step(f, dt, phi, v)` (explicitTrap True/False, nulEdge True/False) vs. the model at Q
                  (Drivers/C11.lean, op "pol").  The model receives the coefficients of the real phi spline and of the real
                  interpolant of the old f and evaluates them exactly; `x % (2*pi)` is `x - P*floor(x/P)` with P the double
-                 2*pi.  Explicit scheme: exact.  Implicit scheme: the iterates carried from sweep to sweep are rounded down to
-                 multiples of 2^-80 (bounded rational size); fuel 400, tolerance as a rational; the model decides termination
-                 itself, cases with a norm within 2^-30 of tol are discarded.
+                 2*pi.  To keep the rationals of bounded size the model's spline evaluators round their *arguments* down to
+                 multiples of 2^-80 (a perturbation 2^27 times smaller than the rounding of the doubles; nodes are unchanged),
+                 and the implicit scheme's iterates carried from sweep to sweep are rounded the same way; fuel 400, tolerance
+                 as a rational; the model decides termination itself, cases with a norm within 2^-30 of tol are discarded.
 oracle (no model): an independent float implementation of the stated rule (drift, trapezoid, wrap, boundary values) on the
                  real spline objects; identity for constant/zero potential; rigid rotation for phi = omega r^2/2 against the
                  rotated profile evaluated through the real 2-D spline of f.
@@ -478,7 +480,7 @@ def run(chk):
                        'rule, constant-potential identity, exact rigid rotation, one-sweep convergence in those cases, clipped feet of the '
                        'implicit scheme) are Lean theorems over abstract spline evaluators; "agree to third order in dt" and termination of '
                        'the fixed-point iteration are analytic and are measured as tests; the model is tied to the code by differential '
-                       'testing (explicit: exact rationals; implicit: iterates rounded to 2^-80, own termination decision).')
+                       'testing (exact rationals with evaluator arguments / carried iterates rounded to 2^-80; own termination decision).')
     chk.proof_side(build=not getattr(chk, 'no_build', False))
     C = Constants()
     drv = common.LeanDriver('C11.lean')
@@ -494,6 +496,7 @@ def run(chk):
         'f_eq is a tag; the harness evaluates the real f_eq at the model\'s arguments',
         'tolerance = first-order forward error bound of the double-precision kernel (rounding of each spline evaluation and position update, propagated with global Lipschitz bounds 2p/h per derivative of the evaluators); no absolute constant',
         'nodes whose predictor or foot lies within 2^-40*(rmax-rmin) of rmin/rmax are excluded and counted (as the property says)',
-        'implicit scheme: model iterates are rounded down to multiples of 2^-80 between sweeps; fuel 400; termination of the real code is observed (20 s guard), not proved',
+        'model evaluators round their arguments, and the implicit iterates carried between sweeps, down to multiples of 2^-80 (bounded rational size); fuel 400; termination of the real code is observed (20 s guard), not proved',
+        'the potential spline has degree >= 2 in both directions (for degree 1 the derivative evaluators are discontinuous at the knots = nodes, a comparison there is not meaningful)',
     ]
     return chk.finish()
